@@ -43,6 +43,7 @@ type impWant struct {
 	ext      []impExt
 	extRecs  map[string]string // struct types whose records another want has already emitted: name -> that want's pkg
 	heap     string // name of a struct type whose pointers are addresses into a threaded heap h__ (package trie)
+	heapRec  bool   // the heap holds the struct's record (fields read and written through the pointer) instead of trie nodes
 	errZ     bool
 	floatAs  string // Gallina type standing for float64 in this package ("" = Z, integer-valued scores)
 	join     bool // translate `if` by joining the assigned variables instead of duplicating what follows
@@ -77,7 +78,7 @@ var impWants = []impWant{
 	{dir: "formats/smtext", pkg: "smtext", funcs: []string{"extractSingleChar", "ReadNCBI"}, errZ: true, floatAs: "F"},
 	{dir: "formats/bed", pkg: "bed", funcs: []string{"BED.Write", "BED.MarshalText", "parseLine", "reader.read", "Reader"}, join: true, errZ: true},
 	{dir: "formats/newick", pkg: "newick", funcs: []string{"quoted", "nameFromText", "nameToText", "Node.traverse", "Node.newick", "Node.MarshalText", "Node.Write"}, floatAs: "F"},
-	{dir: "formats/newick", pkg: "newickrd", funcs: []string{"reader.nextToken"}, errZ: true, floatAs: "F"},
+	{dir: "formats/newick", pkg: "newickrd", heap: "Node", heapRec: true, funcs: []string{"reader.nextToken", "quoted", "nameFromText", "reader.read"}, errZ: true, floatAs: "F"},
 }
 
 type impFn struct {
@@ -97,6 +98,7 @@ type impFn struct {
 type opener struct{ open, close string }
 
 type loopCtx struct {
+	swBreak func() string // inside a switch clause: what an unlabelled break continues with
 	label string   // the label of this loop, if any
 	state string   // the tuple of state variables, as an expression (= as a pattern)
 	post  ast.Stmt // post statement of a 3-clause loop run by go_while
@@ -124,6 +126,8 @@ type impTr struct {
 	join     bool
 	floatAs  string
 	heapType string
+	heapRec  bool
+	fnHeap   bool
 	optRes   bool
 	inResTy  bool
 	optPtr   []string
@@ -259,6 +263,64 @@ func (t *impTr) recPkgOf(name string) string {
 		return p
 	}
 	return t.pkg
+}
+
+func (t *impTr) heapTy() string {
+	if t.heapRec {
+		return "(list imp_" + t.pkg + "_" + t.heapType + ")"
+	}
+	return "go_theap"
+}
+
+// heapField recognises  p.F  for a heap pointer p to a record: p, the record type, the field.
+func (t *impTr) heapField(e ast.Expr) (ast.Expr, *types.Named, string, bool) {
+	if !t.heapRec {
+		return nil, nil, "", false
+	}
+	sel, ok := e.(*ast.SelectorExpr)
+	if !ok {
+		return nil, nil, "", false
+	}
+	if s, ok := t.info.Selections[sel]; !ok || s.Kind() != types.FieldVal {
+		return nil, nil, "", false
+	}
+	tv, ok := t.info.Types[sel.X]
+	if !ok || !t.isHeapPtr(tv.Type) {
+		return nil, nil, "", false
+	}
+	n := tv.Type.(*types.Pointer).Elem().(*types.Named)
+	return sel.X, n, sel.Sel.Name, true
+}
+
+// heapAlloc: &T{...} / an elided {...} of type *T in record-heap mode: a fresh address.
+func (t *impTr) heapAlloc(cl *ast.CompositeLit, pre *[]opener) string {
+	n := t.typeOf(cl)
+	if p, ok := n.(*types.Pointer); ok {
+		n = p.Elem()
+	}
+	named := n.(*types.Named)
+	st := named.Underlying().(*types.Struct)
+	t.record(named)
+	vals := make([]string, st.NumFields())
+	for _, el := range cl.Elts {
+		kv, ok := el.(*ast.KeyValueExpr)
+		if !ok {
+			t.fail(cl, "positional heap literal")
+		}
+		for j := 0; j < st.NumFields(); j++ {
+			if st.Field(j).Name() == kv.Key.(*ast.Ident).Name {
+				vals[j] = t.ex(kv.Value, pre)
+			}
+		}
+	}
+	for j := range vals {
+		if vals[j] == "" {
+			vals[j] = t.zero(st.Field(j).Type())
+		}
+	}
+	v := t.fresh()
+	*pre = append(*pre, opener{fmt.Sprintf("let %s := go_len h__ in let h__ := h__ ++ [(Imp_%s_%s %s)] in ", v, t.pkg, named.Obj().Name(), strings.Join(vals, " ")), ""})
+	return v
 }
 
 func (t *impTr) extFn(o types.Object) *impExt {
@@ -633,6 +695,9 @@ func (t *impTr) ex(e ast.Expr, pre *[]opener) string {
 			if t.isOptPtr(t.typeOf(e)) {
 				return "(Some " + t.ex(e.X, pre) + ")"
 			}
+			if cl, ok := e.X.(*ast.CompositeLit); ok && t.isHeapPtr(t.typeOf(e)) && t.heapRec {
+				return t.heapAlloc(cl, pre)
+			}
 			if cl, ok := e.X.(*ast.CompositeLit); ok && t.isHeapPtr(t.typeOf(e)) {
 				// &Trie{m: map[byte]*Trie{}}: a fresh node with an empty map
 				for _, el := range cl.Elts {
@@ -662,6 +727,13 @@ func (t *impTr) ex(e ast.Expr, pre *[]opener) string {
 			case "ErrUnexpectedEOF":
 				return "3%Z"
 			}
+		}
+		if px, n, f, ok := t.heapField(e); ok {
+			t.record(n)
+			pp := t.ex(px, pre)
+			nd := t.fresh()
+			*pre = append(*pre, opener{fmt.Sprintf("go_index h__ %s (fun %s => ", pp, nd), ")"})
+			return fmt.Sprintf("(imp_%s_%s_%s %s)", t.pkg, n.Obj().Name(), f, nd)
 		}
 		if sel, ok := t.info.Selections[e]; ok && sel.Kind() == types.FieldVal {
 			x := t.ex(e.X, pre)
@@ -733,6 +805,9 @@ func (t *impTr) ex(e ast.Expr, pre *[]opener) string {
 		ty := t.typeOf(e)
 		if isBuilder(ty) {
 			return "[]"
+		}
+		if t.heapRec && t.isHeapPtr(ty) { // {} standing for &T{} inside a []*T literal
+			return t.heapAlloc(e, pre)
 		}
 		switch u := ty.Underlying().(type) {
 		case *types.Struct:
@@ -1365,6 +1440,10 @@ func (t *impTr) assigned(n ast.Node) ([]types.Object, int) {
 						continue
 					}
 				}
+				if _, _, _, ok := t.heapField(l); ok {
+					yields |= 4
+					continue
+				}
 				add(l)
 			}
 		case *ast.IncDecStmt:
@@ -1445,6 +1524,12 @@ func (t *impTr) assigned(n ast.Node) ([]types.Object, int) {
 					}
 				}
 			}
+		case *ast.CompositeLit:
+			if t.heapRec {
+				if tv, ok := t.info.Types[s]; ok && t.isHeapPtr(tv.Type) {
+					yields |= 4
+				}
+			}
 		case *ast.UnaryExpr:
 			if s.Op == token.AND && t.heapType != "" {
 				if tv, ok := t.info.Types[s]; ok && t.isHeapPtr(tv.Type) {
@@ -1485,7 +1570,7 @@ func (t *impTr) tuple(objs []types.Object, yields int) string {
 	}
 	if yields&4 != 0 {
 		names = append(names, "h__")
-		tys = append(tys, "go_theap")
+		tys = append(tys, t.heapTy())
 	}
 	t.tupleTys[strings.Join(names, ", ")] = strings.Join(tys, " * ")
 	switch len(names) {
@@ -1592,6 +1677,13 @@ func (t *impTr) store(lhs ast.Expr, v string, pre *[]opener) {
 			return
 		}
 	case *ast.SelectorExpr:
+		if px, n, f, ok := t.heapField(l); ok {
+			t.record(n)
+			pp := t.ex(px, pre)
+			nd := t.fresh()
+			*pre = append(*pre, opener{fmt.Sprintf("go_index h__ %s (fun %s => go_set h__ %s (imp_%s_%s_with_%s %s %s) (fun h__ => ", pp, nd, pp, t.pkg, n.Obj().Name(), f, nd, v), "))"})
+			return
+		}
 		if sel, ok := t.info.Selections[l]; ok && sel.Kind() == types.FieldVal {
 			rt := sel.Recv()
 			if p, ok := rt.Underlying().(*types.Pointer); ok {
@@ -1824,7 +1916,10 @@ func (t *impTr) block(list []ast.Stmt, k string, lc *loopCtx) string {
 		}
 		return wrapOpeners(pre, t.retWrap(strings.Join(vals, ", ")))
 	case *ast.BranchStmt:
-		if lc == nil || (s.Label != nil && (s.Label.Name != lc.label || lc.label == "")) {
+		if s.Tok == token.BREAK && s.Label == nil && lc != nil && lc.swBreak != nil {
+			return lc.swBreak()
+		}
+		if lc == nil || lc.state == "" || (s.Label != nil && (s.Label.Name != lc.label || lc.label == "")) {
 			t.fail(s, "unsupported branch")
 		}
 		switch s.Tok {
@@ -1886,11 +1981,17 @@ func (t *impTr) block(list []ast.Stmt, k string, lc *loopCtx) string {
 		for _, cc := range s.Body.List {
 			cl := cc.(*ast.CaseClause)
 			for _, st := range cl.Body {
-				if b, ok := st.(*ast.BranchStmt); ok && (b.Tok == token.BREAK || b.Tok == token.FALLTHROUGH) {
-					t.fail(b, "break/fallthrough in a switch")
+				if b, ok := st.(*ast.BranchStmt); ok && b.Tok == token.FALLTHROUGH {
+					t.fail(b, "fallthrough in a switch")
 				}
 			}
-			body := t.block(append(append([]ast.Stmt{}, cl.Body...), list[1:]...), k, lc)
+			lc2 := &loopCtx{}
+			if lc != nil {
+				cp := *lc
+				lc2 = &cp
+			}
+			lc2.swBreak = rest // an unlabelled break inside the clause: on to what follows the switch
+			body := t.block(append(append([]ast.Stmt{}, cl.Body...), list[1:]...), k, lc2)
 			if cl.List == nil {
 				def, hasDef = body, true
 				continue
@@ -2603,6 +2704,24 @@ func (t *impTr) function(fd *ast.FuncDecl, coqName string) *impFn {
 	t.recv = ""
 	t.bufName = ""
 	t.outName = ""
+	// does this function touch the heap at all?
+	t.fnHeap = false
+	if t.heapType != "" {
+		ast.Inspect(fd, func(n ast.Node) bool {
+			if e, ok := n.(ast.Expr); ok {
+				if tv, ok := t.info.Types[e]; ok && tv.Type != nil {
+					ty := tv.Type
+					if sl, ok := ty.Underlying().(*types.Slice); ok {
+						ty = sl.Elem()
+					}
+					if t.isHeapPtr(ty) {
+						t.fnHeap = true
+					}
+				}
+			}
+			return true
+		})
+	}
 	// pre-scan: recursion, float formatting
 	t.self = t.info.Defs[fd.Name]
 	t.calleeSty = "go_stream"
@@ -2870,7 +2989,7 @@ func (t *impTr) function(fd *ast.FuncDecl, coqName string) *impFn {
 			t.retWrap = func(string) string { return "Ret " + t.bufName }
 			rt = "(list N)"
 		}
-		if t.heapType != "" {
+		if t.fnHeap {
 			inner := t.retWrap
 			t.retWrap = func(v string) string {
 				return "Ret (h__, " + strings.TrimPrefix(inner(v), "Ret ") + ")"
@@ -2878,7 +2997,7 @@ func (t *impTr) function(fd *ast.FuncDecl, coqName string) *impFn {
 			if end == "Ret tt" {
 				end = "Ret (h__, tt)"
 			}
-			rt = "(go_theap * " + rt + ")"
+			rt = "(" + t.heapTy() + " * " + rt + ")"
 		}
 		if t.outName != "" {
 			inner := t.retWrap
@@ -2908,7 +3027,7 @@ func (t *impTr) function(fd *ast.FuncDecl, coqName string) *impFn {
 	fn := t.selfFn
 	fn.fuel = t.fuel
 	fn.stream = t.stream
-	fn.heap = t.heapType != ""
+	fn.heap = t.fnHeap
 	fn.sty = t.streamTy
 	fn.iter = t.yield != nil
 	fn.recv = t.recv != ""
@@ -2919,8 +3038,8 @@ func (t *impTr) function(fd *ast.FuncDecl, coqName string) *impFn {
 	if fn.oracle {
 		fuel += "(o : foracle) "
 	}
-	if t.heapType != "" {
-		fuel += "(h__ : go_theap) "
+	if t.fnHeap {
+		fuel += "(h__ : " + t.heapTy() + ") "
 	}
 	if recursive {
 		fmt.Fprintf(t.out, "Fixpoint %s %s%s {struct fuel} : res unit %s :=\n  match fuel with O => NoFuel | Datatypes.S fuel =>\n  %s\n  end.\n\n", coqName, fuel, strings.Join(params, " "), rt, text)
@@ -2976,7 +3095,7 @@ func genImp(repo, out string) {
 			panic(fmt.Sprintf("type-checking %s: %v", want.dir, err))
 		}
 		t := &impTr{pkg: want.pkg, info: info, fset: fset, fns: map[types.Object]*impFn{}, globals: want.globals,
-			records: map[string]bool{}, join: want.join, floatAs: want.floatAs, errZ: want.errZ, heapType: want.heap, optRes: want.optRes, optPtr: want.optPtr, ext: want.ext, extRecs: want.extRecs}
+			records: map[string]bool{}, join: want.join, floatAs: want.floatAs, errZ: want.errZ, heapType: want.heap, heapRec: want.heapRec, optRes: want.optRes, optPtr: want.optPtr, ext: want.ext, extRecs: want.extRecs}
 		fmt.Fprintf(sb, "(* ---- package %s ---- *)\n", want.dir)
 		for _, fname := range want.funcs {
 			if strings.HasPrefix(fname, "var:") { // the initialiser of a package-level variable, as a constant
